@@ -159,6 +159,24 @@ func ruleR15(p *Prog) []Ob {
 				continue
 			}
 			ob.Guards = append(ob.Guards, p.at(def))
+			// the variable the deferred release tests is the error Open returns: every return behind the
+			// defer hands back a load of it (named result), not a value the closure never sees
+			if errAlloc := deferredErrAlloc(def); errAlloc != nil {
+				ei := errResultIndex(open)
+				for b := range reachFrom([]*ssa.BasicBlock{def.Block()}, nil) {
+					rt, ok := terminator(b).(*ssa.Return)
+					if !ok || b == open.Recover || ei < 0 || ei >= len(rt.Results) {
+						continue
+					}
+					if isNilConst(rt.Results[ei]) {
+						continue
+					}
+					u, isLoad := rt.Results[ei].(*ssa.UnOp)
+					if !isLoad || u.Op != token.MUL || u.X != ssa.Value(errAlloc) {
+						bad = append(bad, fmt.Sprintf("%s: the error returned here is not the variable the deferred release tests: this failed Open keeps the directory locked", p.at(rt)))
+					}
+				}
+			}
 			// blocks reachable with the lock held but without having passed the defer
 			held := reachFrom(cont, map[*ssa.BasicBlock]bool{def.Block(): true})
 			for b := range held {
@@ -324,4 +342,18 @@ func (p *Prog) deferredUnlocksOnError(d *ssa.Defer, lockV ssa.Value, encl *ssa.F
 		}
 	}
 	return false
+}
+
+// deferredErrAlloc: the error variable captured by a deferred closure.
+func deferredErrAlloc(d *ssa.Defer) *ssa.Alloc {
+	mc, ok := d.Call.Value.(*ssa.MakeClosure)
+	if !ok {
+		return nil
+	}
+	for _, b := range mc.Bindings {
+		if al, ok := b.(*ssa.Alloc); ok && isErrType(derefPtr(al.Type())) {
+			return al
+		}
+	}
+	return nil
 }
